@@ -100,6 +100,11 @@ func (r *run) playRandom(g *vc.Rng, profile string) {
 		if profile == "c10" && closes == 0 && g.Intn(3) > 0 {
 			closes = 1
 		}
+		if profile == "c16" && g.Intn(10) == 0 {
+			// a long-lived client: the server closes the connection again and again (every close is a new connection
+			// generation; nothing may be used up, counted down or left behind per reconnect)
+			closes = 6 + g.Intn(7)
+		}
 	}
 	hostile := 0
 	if w.hostile > 0 {
